@@ -324,7 +324,61 @@ def rule_ambient(ck, facts, cg, par):
     ck.ok(R, "scanned", {"functions": len(par)})
 
 
+def rule_memo_hit(ck, facts):
+    """get-or-create tables (names -> ids, types -> instances, keys -> offsets) give the compiler and its plugins stable
+    numbering: what a key got once it gets again, whatever was compiled in between"""
+    from ..rules.chainwalk import map_field
+
+    R = "C15.memo-hit"
+    ck.rule(R, "in a function that looks a key up in a map held in a struct field and also inserts into that same map (get-or-create), no insertion is reachable from the `found` edge of the lookup: a hit answers with the stored entry. A hit that can fall through to the creating branch (e.g. because a second, unrelated lookup failed) hands out a fresh id for a name that already has one, so the listing depends on what was compiled before")
+    n = 0
+    for cn in facts.crate_names():
+        if cn in ("mimium_test", "mimium_rust_template") or cn.startswith("mimium_language_server"):
+            continue
+        for f in facts.crate(cn).fns:
+            if f.kind == "promoted" or "::test" in f.path:
+                continue
+            gets = [(b, t) for b, t in f.calls() if (callee(t) or "").split("::")[-1] in ("get", "get_mut") and any(k in (callee(t) or "") for k in ("HashMap", "BTreeMap")) and t[6] is not None and t[5]]
+            ins = [(b, t) for b, t in f.calls() if (callee(t) or "").split("::")[-1] == "insert" and any(k in (callee(t) or "") for k in ("HashMap", "BTreeMap")) and t[5]]
+            if not gets or not ins:
+                continue
+            di = DefIndex(f)
+            for gb, gt in gets:
+                fld = map_field(f, di, gt[5][0])
+                if not fld:
+                    continue
+                same = [(b, t) for b, t in ins if map_field(f, di, t[5][0]) == fld]
+                if not same:
+                    continue
+                dest = gt[6][0]
+                some_targets = []
+                for b, blk in enumerate(f.bb):
+                    t = blk["t"]
+                    if blk["c"] or t[KIND] != "switch" or t[4][0] not in ("cp", "mv"):
+                        continue
+                    r = di.resolve(t[4])
+                    if r[0] == "rv" and r[1][5][0] == "disc" and r[1][5][1][0] == dest:
+                        ones = [tb for v, tb in t[6] if int(v) == 1]
+                        some_targets.extend(ones if ones else [t[7]])
+                if not some_targets:
+                    continue
+                n += 1
+                key = "hit|%s|%s" % (f.short, fld.split("::")[-1])
+                bad = None
+                for tb in some_targets:
+                    reg = reachable(f, tb)
+                    for b, t in same:
+                        if b in reg:
+                            bad = t
+                if bad is None:
+                    ck.ok(R, key, {"fn": f.short, "table": fld})
+                else:
+                    ck.bad(R, key, "%s: from the `found` edge of its lookup in %s a path reaches the insertion into the same table (%s): a key that already has an entry can be registered again with a fresh id, so the numbering in the generated code depends on what was compiled before with the same plugin / context" % (f.short, fld.split("::")[-1], f.where(bad)), f.where(gt))
+    ck.floor(R, "get_or_create_tables", n, 8)
+
+
 def run(ck, facts, tier):
+    rule_memo_hit(ck, facts)
     cg = CallGraph(facts, ["mimium_lang", "state_tree"])
     roots = [p for p, f in cg.fns.items() if f.short.startswith("compiler::Context::emit_") and f.d["vis"] == "pub"]
     roots += [p for p in cg.fns if p in ("state_tree::build_state_storage_patch_plan",)]
